@@ -117,6 +117,14 @@ def _table_worker(tier):
         cell2.insert(CH.HH().change_name("HHx"))          # ... then a renamed channel everywhere
         cell2.comp(0).insert(CH.CaL())
         configs.append(("partial channel inserted before a full (renamed) one", cell2))
+        # histories: the array copies of the tables (.jaxnodes) already exist from an earlier to_jax() / integrate() and the
+        # tables were changed afterwards - here: every value replaced by a symbol.  init_states must read the CURRENT tables
+        # (seeded change C14_f: a stale snapshot is reused when the shape of .nodes is unchanged)
+        import copy as _copy
+        for cname, mod in list(configs):
+            m2 = _copy.deepcopy(mod)
+            m2.to_jax()
+            configs.append((cname + "; .jaxnodes exist from an earlier to_jax(), tables changed since", m2))
         for cname, mod in configs:
             Ctx.reset()
             sm = SymModule(mod)
